@@ -691,6 +691,10 @@ func (nfs *Nfs) NFSPROC3_RENAME(args nfstypes.RENAME3args) nfstypes.RENAME3res {
 				inums[2] = frominum
 				inums[3] = toinum
 				inodes = lockInodes(op, inums)
+				if inodes == nil {
+					// an inode went away meanwhile (lockInodes aborted): retry
+					continue
+				}
 				dipfrom = inodes[0]
 				dipto = inodes[1]
 				from = inodes[2]
@@ -701,6 +705,10 @@ func (nfs *Nfs) NFSPROC3_RENAME(args nfstypes.RENAME3args) nfstypes.RENAME3res {
 				inums[1] = frominum
 				inums[2] = toinum
 				inodes = lockInodes(op, inums)
+				if inodes == nil {
+					// an inode went away meanwhile (lockInodes aborted): retry
+					continue
+				}
 				dipfrom = inodes[0]
 				dipto = inodes[0]
 				from = inodes[1]
